@@ -305,6 +305,9 @@ def check_unlock(rep, u, fn, enc):
         enc["unlock_stored"] = val
 
 
+# generic robustness battery: renaming every local/parameter in these files must not change any verdict
+RENAME_LOCALS = ['src/pmutex-posix.c', 'src/pspinlock-c11.c', 'src/pspinlock-sync.c', 'src/pspinlock-sim.c']
+
 SELFTEST = [
     dict(id="c11-drop-reset", file="src/pspinlock-c11.c", expect="C01.2",
          old="\tdo {\n\t\ttmp_int = 0;\n\t} while (", new="\ttmp_int = 0;\n\tdo {\n\t} while ("),
